@@ -35,6 +35,24 @@ Proof.
   intros H. revert i. induction H as [|x xs Hx _ IH]; intros [|i]; cbn; try reflexivity; auto.
 Qed.
 
+Lemma upd_field_simple n t l :
+  simple t -> Forall simple (map snd l) -> Forall simple (map snd (upd_field n t l)).
+Proof.
+  intros Ht. induction l as [|[k v] r IH]; cbn; intros H.
+  - constructor; auto.
+  - inversion H; subst. destruct (String.eqb k n); cbn; constructor; auto.
+Qed.
+
+Lemma dedupe_from_simple ns : forall acc ts,
+  Forall simple (map snd acc) -> Forall simple ts -> Forall simple (map snd (dedupe_from acc ns ts)).
+Proof.
+  induction ns as [|n r IH]; intros acc ts Ha Ht; cbn; [exact Ha|].
+  destruct ts as [|t ts']; [exact Ha|]. inversion Ht; subst. apply IH; [apply upd_field_simple|]; assumption.
+Qed.
+
+Lemma dedupe_simple ns ts : Forall simple ts -> Forall simple (map snd (dedupe_last ns ts)).
+Proof. intros H. apply dedupe_from_simple; [constructor | exact H]. Qed.
+
 Lemma simple_not_cls t : simple t -> match t with TCls _ _ | TIter _ | TVar _ => False | _ => True end.
 Proof. destruct t; cbn; intros H; try exact I; discriminate. Qed.
 
@@ -137,6 +155,10 @@ Section Grammar.
         match f with
         | Subscript (Attr v _) _ => untyped_shape v          (* residual of F21, see Properties/C10.v *)
         | Name x => fn_call_ok x args kwn
+        | Lambda ps _ => negb (called_ok ps args kwn kwv)    (* an immediately called lambda that binds all its
+                                                                parameters is followed (F45): its body would have to
+                                                                be in the grammar under another environment; such
+                                                                calls are left to the correspondence (see C10.v) *)
         | _ => true
         end
     | UnaryOp _ x => expr_grammar x
@@ -507,12 +529,8 @@ Section Untyped.
       split; [|exact I].
       destruct (IHe Hgf) as [Hf Hsub].
       set (E := Call e args kwn kwv).
-      assert (Hcases : (exists v a, e = Attr v a) \/ (exists v a s, e = Subscript (Attr v a) s) \/ plain_callee e).
-      { destruct e; try (right; right; exact I); try (left; eauto; fail).
-        match goal with |- context [plain_callee (Subscript ?x ?y)] => destruct x end;
-          try (right; right; exact I).
-        right; left; eauto. }
-      destruct Hcases as [(v & a & ->)|[(v & a & s & ->)|Hplain]].
+      pose proof (callee_cases e) as Hcases.
+      destruct Hcases as [(v & a & ->)|[(v & a & s & ->)|[(ps & b & ->)|Hplain]]].
       + (* method call *)
         cbn [subgood] in Hsub. unfold E. rewrite fx_Call_method.
         assert (Hin : forall r, designed ft r (Attr v a) -> designed ft r E).
@@ -556,6 +574,13 @@ Section Untyped.
           -- cbn. apply Hin. eapply designed_child; [|exact Hs]. cbn; auto.
         * cbn. apply Hin. apply (designed_child r (Subscript (Attr v a) s) (Attr v a)); [cbn; auto|].
           apply (designed_child r (Attr v a) v); [cbn; auto | exact Hv].
+      + (* an immediately called lambda that does not bind its parameters positionally: left alone *)
+        unfold E. rewrite fx_Call_lambda.
+        apply (step_list E args _ (good E)); [apply incl_app_l | exact Ha | intros r Hr; exact Hr |].
+        intros ts1 _ _. cbv beta iota.
+        apply (step_list E kwv _ (good E)); [apply incl_app_r | exact Hk | intros r Hr; exact Hr |].
+        intros ts2 _ _. cbv beta iota.
+        apply negb_true_iff in Hg3. rewrite Hg3. fin.
       + (* any other callee *)
         unfold E. rewrite fx_Call_plain by exact Hplain.
         apply (step_child E e _ (good E)); [cbn; auto | exact Hf | intros r Hr; exact Hr |].
@@ -575,7 +600,7 @@ Section Untyped.
       cbn [expr_grammar] in Hg. destruct (IHe Hg) as [Hv _]. split; [|exact I].
       rewrite fx_UnaryOp.
       apply (step_child (UnaryOp o e) e _ (good (UnaryOp o e))); [cbn; auto | exact Hv | intros r Hr; exact Hr |].
-      intros t aux Ht _ _ _. cbv beta iota. rewrite unary_uses_lookup_on. cbn. fin.
+      intros t aux Ht _ _ _. cbv beta iota. rewrite unary_uses_lookup_on. cbn. fin. destruct o; auto; reflexivity.
     - (* BinOp *)
       cbn [expr_grammar] in Hg. destruct (andb_prop _ _ Hg) as [Hga Hgb].
       destruct (IHe1 Hga) as [H1 _]. destruct (IHe2 Hgb) as [H2 _]. split; [|exact I].
@@ -646,8 +671,8 @@ Section Untyped.
             destruct k; try discriminate. destruct c; try discriminate.
             destruct (IH Hr) as (ls & -> & ns & Hns). cbn. eexists; split; [reflexivity|]. cbn. rewrite Hns. cbn. eauto. }
         destruct Hl as (ls & -> & ns & ->).
-        destruct (forallb valid_field_name ns && no_dups ns).
-        - eexists; split; [reflexivity|]. apply simple_record. exact Hts2.
+        destruct (forallb valid_field_name ns).
+        - eexists; split; [reflexivity|]. apply simple_record. apply dedupe_simple. exact Hts2.
         - eexists; split; reflexivity. }
       destruct Hd as (t & -> & Ht). cbn [bind]. fin.
     - (* Subscript *)
@@ -704,7 +729,7 @@ End Untyped.
 (* ---------- the statements exported by Properties/C10.v ---------- *)
 
 Definition bool_shape (b : expr) : bool :=
-  match b with Compare _ _ _ | BoolOp _ _ => true | _ => false end.
+  match b with Compare _ _ _ | BoolOp _ _ | UnaryOp UNot _ => true | _ => false end.
 
 (* comparisons and and/or are typed bool, whatever the class model, environment and operands *)
 Lemma where_bool_shapes_x W G b e' t ev :
@@ -712,6 +737,8 @@ Lemma where_bool_shapes_x W G b e' t ev :
 Proof.
   unfold follow. intros Hb H. apply bind_ok in H. destruct H as ([[[e1 t1] aux1] ev1] & H1 & H2).
   inversion H2; subst. destruct b; try discriminate.
+  - destruct o; try discriminate. rewrite fx_UnaryOp in H1. apply bind_ok in H1.
+    destruct H1 as ([[[? ?] ?] ?] & _ & H1). destruct (unary_uses_lookup || _); inversion H1; reflexivity.
   - rewrite fx_BoolOp in H1. apply bind_ok in H1. destruct H1 as ([[? ?] ?] & _ & H1). inversion H1; reflexivity.
   - rewrite fx_Compare in H1. apply bind_ok in H1. destruct H1 as ([[[? ?] ?] ?] & _ & H1).
     apply bind_ok in H1. destruct H1 as ([[? ?] ?] & _ & H1). inversion H1; reflexivity.
